@@ -231,6 +231,12 @@ def main():
     # oracle failures are violations with a concrete failing input
     for i, why in oracle_fail:
         k = match_known(P, findings, cases[i], obs_list[i], why)
+        if (k and k["matcher"].get("applies_to") == "oracle" and not build_broken
+                and i < len(coq_results) and coq_results[i] is not True):
+            # the model has the recorded inaccuracy too, so on the recorded finding it agrees with the implementation;
+            # here it does not: a different failure of the property on an input of the same class
+            why = f"{why} [not the recorded finding {k['id']}: the model, which has that inaccuracy, predicts other values]"
+            k = None
         if k:
             line = f"KNOWN-FINDING: property={pid} {k['id']}: {k['what']}"
             if line not in known_lines:
